@@ -79,10 +79,11 @@ def run(ids, all_checks):
             results.setdefault(pid, {})["applies"] = False
             continue
         try:
-            t = sh("cd %s && /venv/bin/python -m pytest -q -p no:cacheprovider --timeout=900 --continue-on-collection-errors 2>&1 | tail -1" % REPO)
             entry = results.setdefault(pid, {})
             entry["applies"] = True
-            entry["tests"] = t.stdout.strip()
+            if "--no-tests" not in sys.argv or "tests" not in entry:
+                t = sh("cd %s && /venv/bin/python -m pytest -q -p no:cacheprovider --timeout=900 --continue-on-collection-errors 2>&1 | tail -1" % REPO)
+                entry["tests"] = t.stdout.strip()
             prop = pid[:3]
             targets = [prop] if not all_checks else ["C%02d" % i for i in range(1, 20)]
             entry.setdefault("checks", {})
